@@ -35,7 +35,7 @@ def put (key : α → κ) : List (α × β) → α × β → List (α × β)
   | [], e => [e]
   | x :: xs, e => if key x.1 = key e.1 then e :: xs else x :: put key xs e
 
-def delete (key : α → κ) (m : List (α × β)) (k : κ) : List (α × β) := m.filter (fun e => key e.1 ≠ k)
+def delete (key : α → κ) (m : List (α × β)) (k : κ) : List (α × β) := m.filter (fun e => !decide (key e.1 = k))
 
 def deleteAll (key : α → κ) (m : List (α × β)) (ks : List κ) : List (α × β) :=
   m.filter (fun e => !ks.contains (key e.1))
